@@ -860,3 +860,38 @@ package calendar
 //@     assert(n.GetBaMenInQiMen() == BA_MEN_QI_MEN[n.index] && n.GetSongInTaiYi() == SONG_TAI_YI[n.index] && n.GetIndex() == n.index)
 
 //@ # The day star (nearest-jiazi-day rule around both solstices) is executed by the bounded stand-in nine_star.
+
+//@ # ================================================================ C17: day-class predicates follow their definitions
+//@ # (each depends only on the lunar month and day, the day pillar of the civil day, or the day's solar term)
+//@ ghost func taoDayClasses(t *Tao) [C17]
+//@   requires t.lunar != nil
+//@   body
+//@     l := t.lunar
+//@     m := l.month
+//@     d := l.day
+//@     assert(t.IsDayMingWu() == (l.dayGanIndex == 4))
+//@     assert(t.IsDayAnWu() == (LunarUtil.ZHI[l.dayZhiIndex+1] == TaoUtil.AN_WU[ite(m < 0, -m, m)-1]))
+//@     assert(t.IsDayWu() == (l.dayGanIndex == 4 || LunarUtil.ZHI[l.dayZhiIndex+1] == TaoUtil.AN_WU[ite(m < 0, -m, m)-1]))
+//@     assert(t.IsDaySanHui() == ((m == 1 && d == 7) || (m == 7 && d == 7) || (m == 10 && d == 15)))
+//@     assert(t.IsDaySanYuan() == ((m == 1 && d == 15) || (m == 7 && d == 15) || (m == 10 && d == 15)))
+//@     assert(t.IsDayWuLa() == ((m == 1 && d == 1) || (m == 5 && d == 5) || (m == 7 && d == 7) || (m == 10 && d == 1) || (m == 12 && d == 8)))
+//@     jq := l.GetJieQi()
+//@     assert(t.IsDayBaJie() == (jq == "春分" || jq == "秋分" || jq == "夏至" || jq == "冬至" || jq == "立春" || jq == "立夏" || jq == "立秋" || jq == "立冬"))
+//@     gz := LunarUtil.GAN[l.dayGanIndex+1] + LunarUtil.ZHI[l.dayZhiIndex+1]
+//@     assert(t.IsDayBaHui() == (gz == "丙午" || gz == "壬午" || gz == "壬子" || gz == "庚午" || gz == "庚申" || gz == "辛酉" || gz == "甲辰" || gz == "甲戌"))
+
+//@ ghost func fotoDayClasses(f *Foto) [C17]
+//@   requires f.lunar != nil && 3 <= f.lunar.solar.year && f.lunar.solar.year <= 9996 && f.lunar.solar.year != 18
+//@   reveal findM mDat mYat mMat
+//@   body
+//@     l := f.lunar
+//@     m := l.month
+//@     d := l.day
+//@     assert(f.IsMonthZhai() == (m == 1 || m == 5 || m == 9))
+//@     assert(f.IsDayZhaiShuoWang() == (d == 1 || d == 15))
+//@     assert(f.IsDayZhaiTen() == (d == 1 || d == 8 || d == 14 || d == 15 || d == 18 || d == 23 || d == 24 || d == 28 || d == 29 || d == 30))
+//@     tableAx(l.solar.year)
+//@     midxRange(l.solar.year, sjdn(l.solar))
+//@     monthLocateBack(l.solar.year, midx(l.solar.year, sjdn(l.solar)))
+//@     uniqueAx(l.year)
+//@     assert(f.IsDayZhaiSix() == (d == 8 || d == 14 || d == 15 || d == 23 || d == 29 || d == 30 || (d == 28 && mDat(l.solar.year, midx(l.solar.year, sjdn(l.solar))) != 30)))
